@@ -2481,6 +2481,11 @@ def main(
     # read animal population data
     df_animal_stock_info = AnimalDataReader.read_animal_population_data(population_csv)
 
+    if country_code == "SWT":
+        # this indicates swaziland, which is "SWZ" in non-cleaned-up FAOSTAT data
+        # (resolved before the custom head counts are written, so they reach the row that is used)
+        country_code = "SWZ"
+
     # custom animal stock info
     if constants_inputs:
         for key, value in constants_inputs.items():
